@@ -2,11 +2,17 @@
    Reference semantics: spec/DocGrammar.v (grammar_eval) read against the
    decoder's output by spec/Reader.v.  Proved so far (partial): every rule's
    arithmetic and every symbol table of the code equals the documented one;
-   the refinement theorem decode = grammar_eval is validated per input by the
-   extracted spec on this run (see evidence) and is the next proof stage. *)
-From Coq Require Import List ZArith NArith Bool.
+   for all strings: what the independent reader reads from the decoder's output IS the decoder's
+   graph (atoms with their fields in written order, bonded pairs with orders and marks, neighbour
+   order = parent, then the entries of the row); every rejection is a DecoderError; strings whose
+   symbols are all in the grammar (and whose brackets are closed) are accepted; a reached symbol
+   outside the grammar is rejected.  Not a theorem: graph = documented derivation (grammar_eval),
+   validated per input by the extracted spec on this run (bounded-exhaustive + sampled). *)
+From Coq Require Import String List ZArith NArith Bool.
 Import ListNotations.
-From Selfies Require Import Base Generated Atoms Grammar Decoder StateFacts IndexSpec IndexCode Reader DocGrammar DecoderBasics.
+From Selfies Require Import Base Generated Lex Atoms Grammar Decoder StateFacts IndexSpec IndexCode Reader DocGrammar DecoderBasics
+  CompatFacts DecoderInv DecoderTree DecoderSum TokFacts DeriveOk WriterSim WriterFinal.
+Local Open Scope string_scope.
 Local Open Scope Z_scope.
 
 Definition C02_full_statement : Prop :=
@@ -48,7 +54,49 @@ Theorem C02_index_code_partial : forall syms : list (option str),
   get_index_from_selfies syms = doc_value (map doc_digit syms).
 Proof. exact get_index_is_base16. Qed.
 
+
+(* the molecule denoted by the output is the decoder's graph *)
+Theorem C02_output_denotes_graph_partial : forall T s attribute out maps,
+  (exists c, assoc (lit "?") T = Some c) -> symbols_short s ->
+  decoder T s false attribute = Ok (out, maps) ->
+  (forall m, decode_graph T s false attribute = Ok m -> (length (ring_pairs m) < 100)%nat) ->
+  exists m ord, decode_graph T s false attribute = Ok m /\ NoDup ord /\ (forall j, In j ord <-> (j < natoms m)%nat) /\
+    read_smiles out = Some {| sm_atoms := map (aat m) ord; sm_nbrs := map (frow m ord) ord |}.
+Proof.
+  intros T s attribute out maps Hq Hs E Hr.
+  assert (Hd : frags_ok s false) by (apply tokenize_all_ok; now apply digits_ok_of_symbols).
+  unfold decoder, decoder_c in E. change (decode_graph_c (get_bonding_capacity T) s false attribute) with (decode_graph T s false attribute) in E.
+  destruct (decode_graph T s false attribute) as [m|] eqn:Eg; cbn [bind] in E; [|discriminate].
+  destruct (decode_graph_ok2 T s false attribute m Hq Hd Eg) as [HG HT].
+  destruct (printed_reads T m HG HT (Hr m eq_refl) out maps E) as (ord & A & B & C). exists m, ord. auto.
+Qed.
+
+(* every rejection is a DecoderError ... *)
+Theorem C02_rejection_is_decoder_error_partial : forall T s attribute e,
+  (exists c, assoc (lit "?") T = Some c) -> symbols_short s ->
+  decoder T s false attribute = Err e -> e = DecoderError.
+Proof.
+  intros T s attribute e Hq Hs E. destruct (decoder_total_ok T s attribute Hq (digits_ok_of_symbols s Hs)) as [[o Ho]|Hd]; congruence.
+Qed.
+
+(* ... strings made of symbols of the grammar, brackets closed, are never rejected ... *)
+Theorem C02_grammar_strings_accepted_partial : forall T s compat attribute,
+  (exists c, assoc (lit "?") T = Some c) -> Forall (frag_good T) (tokenize_all s compat) ->
+  exists out, decoder T s compat attribute = Ok out.
+Proof. intros T s compat attribute Hq H. exact (decoder_ok T Hq s compat attribute H). Qed.
+
+(* ... and a reached symbol outside the grammar is *)
+Theorem C02_reached_unknown_symbol_rejected_partial :
+  forall T bad aidx fuel idx sym rest m maxd state prev rings astack nd,
+  outside_grammar sym = true -> below nd maxd = true ->
+  derive T bad aidx (S fuel) ((idx, sym) :: rest) m maxd state prev rings astack nd = Err DecoderError.
+Proof. exact derive_rejects. Qed.
+
 Print Assumptions C02_atom_rule_partial.
+Print Assumptions C02_output_denotes_graph_partial.
+Print Assumptions C02_rejection_is_decoder_error_partial.
+Print Assumptions C02_grammar_strings_accepted_partial.
+Print Assumptions C02_reached_unknown_symbol_rejected_partial.
 Print Assumptions C02_branch_rule_partial.
 Print Assumptions C02_ring_rule_partial.
 Print Assumptions C02_branch_symbols_partial.
